@@ -348,6 +348,19 @@ pub fn step(st: &mut St, toks: &[&str]) -> String {
                 None => "panic".into(),
             }
         }
+        ["guts", "eqd", a, b] => {
+            // the derived `PartialEq` of `guts::ChaCha` (field-wise `vec128_storage` comparisons)
+            let (Some(a), Some(b)) = (num(a), num(b)) else {
+                return "bad-op".into();
+            };
+            let (Some(x), Some(y)) = (st.guts.get(&a), st.guts.get(&b)) else {
+                return "bad-op".into();
+            };
+            match guard(|| x == y) {
+                Some(r) => format!("{}", r),
+                None => "panic".into(),
+            }
+        }
         ["guts", op @ ("eq32" | "eq64"), a, b] => {
             let (Some(a), Some(b)) = (num(a), num(b)) else {
                 return "bad-op".into();
